@@ -389,14 +389,19 @@ def r1_query(P, rep, ctx):
               construct="MetadorNode.metador", message=f"MetadorNode.metador returns {rets}, expected the query facade bound to self")
     # container query: results only from the start node and start_node.visititems
     q = P.func(f"{I}.MetadorContainerTOC.query")
-    defs = local_defs(q)
-    sn = [norm(v) for k, v in defs.get("start_node", []) if v is not None]
-    rep.check(sn == ["node or self._container['/']"], "C15.R1", q.qual, "query start = caller's node, else the container root obtained through the container's own __getitem__", q.loc(),
+    qf = F(ctx, q)
+    START = ("node or self._container['/']", "self._container['/'] if node is None else node", "node if node is not None else self._container['/']")
+    vis_s = qf.call_sites("__s.visititems(__cb)")
+    sn = sorted({qf.x_at(i, b["__s"]) for i, c, b in vis_s})
+    rep.check(bool(sn) and all(x in START for x in sn), "C15.R1", q.qual, "query start = caller's node, else the container root obtained through the container's own __getitem__", q.loc(),
               construct="start_node of MetadorContainerTOC.query", message=f"MetadorContainerTOC.query computes its start node as {sn}: results may carry other flags than the caller's node")
+    accs = {norm(c.func.value) for nf in q.nested.values() for c in local_calls(nf.node) if call_attr(c) == "append" and isinstance(c.func, ast.Attribute) and isinstance(c.func.value, ast.Name)}
     for how, val, st in handed_out(q):
         t = norm(val)
-        ok = t in ("start_node", "iter(ret)", "ret") or how.startswith("callback")
-        rep.check(ok, "C15.R1", q.qual, f"query hands out only the start node / collected nodes ({how} {t})", q.loc(st), construct=f"{how} {t}",
+        site = node_of(qf.g, val)
+        xt = qf.x_at(site, val) if site is not None else t
+        ok = xt in START or t in accs or any(t == f"iter({a_})" for a_ in accs) or how.startswith("callback")
+        rep.check(ok, "C15.R1", q.qual, f"query hands out only the start node / collected nodes ({how})", q.loc(st), construct=f"{how} value of query",
                   message=f"MetadorContainerTOC.query hands out {t}")
     coll = q.nested.get("collect_nodes")
     if coll is None:
@@ -405,10 +410,10 @@ def r1_query(P, rep, ctx):
     ok = bool(appends) and all(norm(c.args[0]) == coll.params[1] for c in appends)
     rep.check(ok, "C15.R1", coll.qual, "collector appends exactly the node passed by visititems", coll.loc(), construct="collect_nodes append",
               message="query collector appends something other than the node handed to it by start_node.visititems")
-    vis = [c for c in local_calls(q.node) if call_attr(c) in ("visititems", "visit", "items", "values")]
-    ok = bool(vis) and all(norm(c.func.value) == "start_node" for c in vis)
+    vis = [(i, c) for m_ in ("visititems", "visit", "items", "values") for i, c, b in qf.call_sites(f"__s.{m_}(___)")]
+    ok = bool(vis) and all(qf.x_at(i, c.func.value) in START for i, c in vis)
     rep.check(ok, "C15.R1", q.qual, "query traverses through start_node.visititems only", q.loc(), construct="traversal receiver in query",
-              message=f"query traverses through {[norm(c.func) for c in vis]} (must be start_node.visititems)")
+              message=f"query traverses through {[norm(c.func) for i, c in vis]} (must be start_node.visititems)")
     # facade MetadorMeta: values()/items() hand out StoredMetadata (raw dataset inside): informational
     rep.info("StoredMetadata.node handed out by meta.values()/items() is a raw dataset but not a navigation primitive of the protocol (informational)")
 
